@@ -91,7 +91,7 @@ func (d *c11Data) HandleEvent(p api.EventPayload) {
 
 func init() {
 	Register(&Scenario{
-		Prop: "C11", Name: "snapshots",
+		Prop: "C11", Name: "snapshots", Weight: 5,
 		NonTrivial: []string{"c11-snapshot-verified"},
 		Build: func(w *World) {
 			d := &c11Data{w: w}
